@@ -146,6 +146,8 @@ Next == \/ \E s \in Sess, n \in Node : OpenSession(s, n)
         \/ \E n \in Node : \E W \in SUBSET LiveWanted(n) : Snapshot(n, W)
 
 Spec == Init /\ [][Next]_vars
+\* bound for exhaustive checking of this module alone (the announcement counter is otherwise unbounded)
+MCBound == \A n \in Node, b \in Block : adding[n][b] <= 1
 
 -----------------------------------------------------------------------------
 (* The property, on the state *)
